@@ -647,6 +647,10 @@ Termination == <>(\A self \in ProcSet: pc[self] = "Done")
 
 \* END TRANSLATION
 
+\* the process of a task that was never spawned (launch error, canceled on intake) never runs:
+\* termination of the executor means all threads are done and every process that was born has ended
+TerminationX == <>(\A self \in ProcSet : pc[self] = "Done" \/ (self \in T /\ pst[self] = "unborn"))
+
 (* ------------------------------------------------------------------------ *)
 (* properties (C07, executor part of C03 / C08)                             *)
 (* ------------------------------------------------------------------------ *)
